@@ -1,5 +1,5 @@
 (* C09 — refutation witnesses for the code before the fix (KNOWN_FINDINGS: fixed acbc458) and non-vacuity. *)
-From V.C09 Require Import Spec Model ProofsA ProofsB ProofsC.
+From V.C09 Require Import Spec Model ProofsA ProofsB ProofsC ProofsD.
 
 (* BEFORE the fix (no lock): S reads closed=false and stops at the yield point; C closes; S sends: panic *)
 Example no_crash_refuted_check_then_send :
@@ -34,3 +34,25 @@ Example after_close_hyps :
   (exists t, nth_error (thr demo2) 2 = Some t /\ pc t = Idle /\ prog t = [ORecv; ORecv]) /\
   (exists t, nth_error (thr demo2) 3 = Some t /\ pc t = SLocked).
 Proof. vm_compute. repeat split; eexists; repeat split. Qed.
+
+(* audit finding 1: with IsClosed under the read lock (fix acbc458 as first committed) the consumer
+   `isClosed(); receive()` blocked behind the pending Close while the sender was parked: all three stuck although a
+   receiver existed.  With the lock-free IsClosed (162a167) the same programs and schedule run to completion. *)
+Example consumer_polling_isclosed_completes :
+  let s := run true (init 0 [[OSend]; [OClose]; [OIsClosed; ORecv]]) [0;0;0; 1;1; 2;2; 0;0; 1;1;1;1] in
+  map results (thr s) = [[RSent true]; [RClosed]; [RIs false; RRecv (Some (0,0))]] /\ crashed s = false.
+Proof. vm_compute. split; reflexivity. Qed.
+(* deadlock_shape's hypotheses are reachable: both shapes *)
+Example deadlock_receivers_starving :
+  let s := run true (init 1 [[ORecv]; [ORecv; OSend]]) [0; 1] in
+  (forall i, (i < 2)%nat -> step true s i = None) /\ sendq (ch s) = [].
+Proof. vm_compute. split; [intros [|[|i]] H; try reflexivity; exfalso; inversion H as [|? H1]; inversion H1 as [|? H2]; inversion H2|reflexivity]. Qed.
+Example deadlock_senders_stuck :
+  let s := run true (init 0 [[OSend]; [OClose]; [OSend]]) [0;0;0; 1; 2] in
+  step true s 0 = None /\ step true s 1 = None /\ step true s 2 = None /\ sendq (ch s) = [(0, (0, 0))].
+Proof. vm_compute. repeat split. Qed.
+(* Len counts buffered values only; Cap is the capacity *)
+Example len_cap :
+  map results (thr (run true (init 2 [[OSend; OSend; OLen; OCap; OIsClosed]]) [0;0;0;0; 0;0;0;0; 0; 0; 0]))
+  = [[RSent true; RSent true; RNum 2; RNum 2; RIs false]].
+Proof. reflexivity. Qed.
